@@ -1113,6 +1113,11 @@ def section_illposed():
             th_ = lambda m_=m_: block_diagonalize([wq_ * _Dg(aq) * aq, xq * (aq + _Dg(aq) + _Dg(aq) * aq)], symbols=[xq], fully_diagonalize={0: m_})[0][0, 0, 1]
         wq_ = sympy.Symbol("omega_m", positive=True)
         expect(f"operator-valued mask selecting a number-conserving diagonal term ({lab_})", (ValueError,), th_)
+    # ... nor a term whose symbolic powers may all vanish (a^k with k >= 0 contains the number-conserving k = 0)
+    kq = sympy.Symbol("k_q", integer=True, nonnegative=True)
+    wq_ = sympy.Symbol("omega_m", positive=True)
+    expect("operator-valued mask with a symbolic power that may be zero on the diagonal", (ValueError,),
+           lambda: block_diagonalize([wq_ * _Dg(aq) * aq + _Dg(aq) * aq * _Dg(aq) * aq / 3, aq + _Dg(aq) + _Dg(aq) * aq], fully_diagonalize=aq ** kq + _Dg(aq) ** kq)[0][0, 0, 1])
     # second-quantized problems: levels of equal (operator-valued) unperturbed energy coupled by the perturbation
     bq = _Bos("b")
     wq, gq = sympy.symbols("omega_q g_q", positive=True)
